@@ -92,8 +92,12 @@ func (fx *FX) runTop() (errmsg string) {
 			fx.usesAx[ax] = true
 		}
 	}
-	for _, p := range fn.Params {
-		t := fx.declare("p_"+sanitize(p.Name()), w.SortOf(p.Type()))
+	for pi, p := range fn.Params {
+		pname := p.Name()
+		if pname == "_" || pname == "" {
+			pname = fmt.Sprintf("blank%d", pi)
+		}
+		t := fx.declare("p_"+sanitize(pname), w.SortOf(p.Type()))
 		t.Signed = isSigned(p.Type())
 		fr.params = append(fr.params, Val{T: t, Typ: p.Type()})
 		fx.assumeWF(st, t, p.Type())
@@ -133,6 +137,15 @@ func (fx *FX) runTop() (errmsg string) {
 		fx.items = append(fx.items, item{kind: "oblig", ob: ob, reach: True, goal: False})
 		fx.obs = append(fx.obs, ob)
 	}
+	if c != nil {
+		env := fx.newEnv(fr, st)
+		for _, cl := range c.GhostEntry {
+			val := fx.evalExpr(env, cl.Expr)
+			srt := fx.compSorts["G:"+cl.Name]
+			val = coerce(val, srt, true)
+			fx.setComp(st, "G:"+cl.Name, val.T)
+		}
+	}
 	entry := st.clone()
 	exits := fx.runBody(fr, st)
 	if c != nil {
@@ -150,13 +163,30 @@ func (fx *FX) runTop() (errmsg string) {
 			for k, v := range fx.contractNames(c, nil, fn.Signature, nil, rs, nil) {
 				env.names[k] = v
 			}
+			if len(c.GhostExit) > 0 {
+				envx := fx.newEnv(fr, x.st)
+				envx.old = fx.oldState
+				for k, vv := range env.names {
+					envx.names[k] = vv
+				}
+				newv := map[string]Term{}
+				for _, cl := range c.GhostExit {
+					val := fx.evalExpr(envx, cl.Expr)
+					val = coerce(val, fx.compSorts["G:"+cl.Name], true)
+					newv["G:"+cl.Name] = val.T
+				}
+				for k, t := range newv {
+					fx.setComp(x.st, k, t)
+				}
+			}
+			env.old = fx.oldState
 			fx.addAllLoopNames(fr, env)
 			env.goal = true
 			for j, cl := range c.Ensures {
 				g := fx.evalBool(env, cl.Expr)
 				fx.oblige(x.st, "post", fmt.Sprintf("ensures#%d%s@ret#%d", j+1, lbl(cl), x.idx+1), cl.Text, g, x.pos, propsOr(cl.Props, c.Props))
 			}
-			fx.frameObligations(entry, x)
+			fx.frameObligations(fx.oldState, x)
 			for j, cl := range c.ClosureInv {
 				g := fx.evalBool(env, cl.Expr)
 				fx.oblige(x.st, "post", fmt.Sprintf("closure-invariant#%d@ret#%d", j+1, x.idx+1), cl.Text, g, x.pos, propsOr(cl.Props, c.Props))
